@@ -123,3 +123,8 @@ Definition chk (pv : Z) (rm : option (list colspec)) (stream : Z) (r : response)
 (* One arbitrary (malformed) body: the model must accept/reject and decode exactly like the implementation. *)
 Definition chk_raw (pv : Z) (rm : option (list colspec)) (stream flags opcode : Z) (body : list Z) (impl : option msg) : Z :=
   if opt_eqb msg_eqb (decode_message pv rm stream flags opcode body) impl then 0 else 4.
+
+(* A history of frames decoded by one process, starting with no class cached for the UDT names it mentions: the
+   stateful model (UDT class cache threaded through) must give the implementation's result for every frame. *)
+Definition chk_hist (fs : list frame) (impl : list (option msg)) : Z :=
+  if lst_eqb (opt_eqb msg_eqb) (decode_history true [] fs) impl then 0 else 6.
